@@ -4,7 +4,7 @@ import re
 
 from ..facts import Broken, strip, const, walk, walk_eval, macro_name, show
 from ..interp import path
-from .. import cfgq
+from .. import cfgq, loops
 
 WINDOW_FIELDS = ("buffer", "next_char", "text_start", "tvalue_start")
 REFILL_ROOT = "get_more_chars"
@@ -266,6 +266,7 @@ def run(prog, chk):
                 r2.ok("scan_text:own-accounting", ", ".join(sfp))
 
     fold_rule(prog, chk)
+    refill_transparency(prog, chk)
     r3 = chk.rule("R3-window-rebased", "whenever get_more_chars moves the buffered data it re-bases text_start, tvalue_start, "
                   "next_char and buffer_limit", primary=False, floor=2)
     g = prog.fn(REFILL_ROOT)
@@ -311,3 +312,58 @@ def fold_rule(prog, chk):
             r4.violation(g.file, g.name, n.get("l"), "fold-count:u_memmove",
                          "a path reaches the compaction move at L%s (which drops one character of a CR LF pair) without `nread -= 1`: "
                          "the count of valid characters stays one too large and a stale character is appended" % n.get("l"))
+
+
+def refill_transparency(prog, chk):
+    """R5: in a scan function the per-character loop sits inside a per-buffer loop that calls get_more_chars.  The state a
+    scan carries from one character to the next (locals written in the inner loop and read there before being re-written)
+    must be carried across a refill unchanged: on the part of the outer loop outside the inner one, such a variable is
+    neither re-declared with an initialiser nor assigned a constant."""
+    r5 = chk.rule("R5-refill-transparent-state", "per-character scan state (locals carried round the inner loop) is not reset or "
+                  "re-initialised on the refill path of the enclosing per-buffer loop", floor=5)
+    n_pairs = 0
+    for fn in prog.all_functions():
+        calls = [b.id for (b, i, r, n) in fn.calls_to(REFILL_ROOT)]
+        if not calls or fn.name == REFILL_ROOT:
+            continue
+        lps = loops.natural_loops(fn)
+        for lo in lps:
+            cb = [b for b in calls if b in lo.body]
+            if not cb:
+                continue
+            for li in lps:
+                if li is lo or not (li.body < lo.body) or any(b in li.body for b in cb):
+                    continue
+                ev, cs, dw, dr = loops.loop_rw(li)
+                written = {p for b in ev for (k, p) in ev[b] if k == "w" and loops._plain(p)}
+                carried = sorted(v for v in written if loops.upward_exposed(li, v, ev))
+                if not carried:
+                    continue
+                n_pairs += 1
+                bad = []
+                soft = []
+                for b in lo.body - li.body:
+                    for r in fn.blocks[b].roots:
+                        for n in walk_eval(r):
+                            if n.get("k") == "decl":
+                                for v in n.get("vars", []):
+                                    if v["name"] in carried and v.get("init") is not None:
+                                        bad.append((v["name"], n.get("l"), "re-declared with the initialiser `%s`" % show(v["init"])[:30]))
+                            elif n.get("k") == "asg" and path(strip(n.get("lhs"))) in carried:
+                                if n.get("op") == "=" and const(n.get("rhs")) is not None:
+                                    bad.append((path(strip(n.get("lhs"))), n.get("l"), "assigned the constant `%s`" % show(n.get("rhs"))[:30]))
+                                else:
+                                    soft.append((path(strip(n.get("lhs"))), n.get("l")))
+                key = "%s:inner@%d" % (fn.name, li.header)
+                for (v, l, how) in bad:
+                    r5.violation(fn.file, fn.name, l, "state-reset-on-refill:%s:%s" % (fn.name, v),
+                                 "`%s` carries scan state from one character to the next (written and read round the inner loop at "
+                                 "L%s), but on the refill path of the enclosing loop it is %s (L%s): what the scan has seen so far is "
+                                 "forgotten whenever the construct straddles a buffer boundary" % (v, li.line(), how, l))
+                if not bad:
+                    if soft:
+                        r5.unproved(key, "carried %s; re-computed (not reset) on the refill path at %s" % (carried, soft[:3]))
+                    else:
+                        r5.ok(key, "carried across refills untouched: %s" % ", ".join(carried))
+    if n_pairs < 5:
+        raise Broken("only %d scan loops with a per-buffer / per-character nesting found" % n_pairs)
